@@ -246,8 +246,10 @@ func (node *mastNode) follow(ctx context.Context, i int, createOk bool, mast *Ma
 	} else if !createOk {
 		return node, nil
 	} else {
+		// The new child is not linked here: the given node may be shared with
+		// other versions (or the node cache). savePathForRoot links it into a
+		// private copy of its parent.
 		child := emptyNodePointer(cap(node.Key))
-		node.Link[i] = child
 		return child, nil
 	}
 }
